@@ -191,10 +191,12 @@ Definition subscribe_codes (e : env) (v : view) (o : sop) (ob : opobs) : list N 
   else if negb (is_sub o) then []
   else
     let ctx0 := match op_ctx o with Some c => mem c (en_done e) | None => false end in
-    let e0 := (checks_at_subscribe r && cond r v) || ctx0 || en_disposed e in
-    (if Bool.eqb (oo_closed0 ob) e0 then []
-     else if oo_closed0 ob then [(b + 4)%N]
-     else [(if en_setschema e && is_time r then b + 7 else b + 5)%N])
+    (* must be closed at return: the condition holds (or the machine is disposed);
+       may be closed at return: its context has already ended (the implementation
+       returns the closed channel unless an identical pending subscription is reused) *)
+    let must := (checks_at_subscribe r && cond r v) || en_disposed e in
+    (if oo_closed0 ob then (if must || ctx0 then [] else [(b + 4)%N])
+     else if must then [(if en_setschema e && is_time r then b + 7 else b + 5)%N] else [])
     ++ (if is_sctx o && negb (N.eqb (oo_tick ob) (tick_of (v_clock v) (hd 0 (op_states o))))
         then [(if v_window v then 675 else if en_setschema e then 677 else 673)%N] else []).
 
